@@ -31,6 +31,7 @@ import (
 	"github.com/taurusgroup/multi-party-sig/pkg/math/curve"
 	"github.com/taurusgroup/multi-party-sig/pkg/math/polynomial"
 	"github.com/taurusgroup/multi-party-sig/pkg/party"
+	"github.com/taurusgroup/multi-party-sig/pkg/protocol"
 )
 
 // ---------------------------------------------------------------------------------------------- scripted transport
@@ -41,6 +42,11 @@ type c08Net struct {
 	rng   *c18rng
 	done  chan struct{}
 	maxMs int
+	// stray: every party additionally receives, once, a copy of the first FROST protocol message sent to it whose session
+	// binding (SSID) was altered - what a late message of an earlier attempt of the session looks like. The handler cannot
+	// accept it; the session must go on regardless.
+	stray   bool
+	strayed map[string]bool
 }
 
 func newC08Net(seed uint64, maxMs int) *c08Net {
@@ -79,32 +85,55 @@ func (c *c08Comm) Broadcast(peers peer.IDSlice, msg []byte, t comm.MessageType, 
 		w := &comm.WrappedMessage{MessageType: t, SessionID: sessionID, Payload: msg, From: c.self}
 		k := fmt.Sprintf("%s|%s|%s", p, sessionID, t)
 		d := c.net.delay()
-		go func() {
-			select {
-			case <-time.After(d):
-			case <-c.net.done:
-				return
+		if c.net.stray {
+			c.net.mu.Lock()
+			first := !c.net.strayed[k]
+			if c.net.strayed == nil {
+				c.net.strayed = map[string]bool{}
 			}
-			for i := 0; i < 4000; i++ { // a party that has not subscribed yet gets the message once it has
-				c.net.mu.Lock()
-				ch := c.net.subs[k]
-				c.net.mu.Unlock()
-				if ch != nil {
-					select {
-					case ch <- w:
-					case <-c.net.done:
+			c.net.strayed[k] = true
+			c.net.mu.Unlock()
+			if first {
+				pm := &protocol.Message{}
+				if pm.UnmarshalBinary(msg) == nil && len(pm.SSID) > 0 {
+					pm.SSID = append([]byte{}, pm.SSID...)
+					pm.SSID[0] ^= 0xff
+					if alt, err := pm.MarshalBinary(); err == nil {
+						sw := &comm.WrappedMessage{MessageType: t, SessionID: sessionID, Payload: alt, From: c.self}
+						go c.deliver(k, sw, d/2)
 					}
-					return
-				}
-				select {
-				case <-time.After(5 * time.Millisecond):
-				case <-c.net.done:
-					return
 				}
 			}
-		}()
+		}
+		go c.deliver(k, w, d)
 	}
 	return nil
+}
+
+// deliver hands w to the subscriber k after delay d (a party that has not subscribed yet gets it once it has)
+func (c *c08Comm) deliver(k string, w *comm.WrappedMessage, d time.Duration) {
+	select {
+	case <-time.After(d):
+	case <-c.net.done:
+		return
+	}
+	for i := 0; i < 4000; i++ { // a party that has not subscribed yet gets the message once it has
+		c.net.mu.Lock()
+		ch := c.net.subs[k]
+		c.net.mu.Unlock()
+		if ch != nil {
+			select {
+			case ch <- w:
+			case <-c.net.done:
+			}
+			return
+		}
+		select {
+		case <-time.After(5 * time.Millisecond):
+		case <-c.net.done:
+			return
+		}
+	}
 }
 
 // ---------------------------------------------------------------------------------------------- fixtures
@@ -184,7 +213,10 @@ func c08SignECDSAWith(sub []int, fetchers []ecdsaSigning.SaveDataFetcher, all []
 		procs = append(procs, s)
 		pos, s := pos, s
 		ch := make(chan interface{}, 4)
-		go func() { err := s.Run(ctx, pos == coord, ch, params); resC <- res{pos: pos, err: err, v: "run-returned"} }()
+		go func() {
+			err := s.Run(ctx, pos == coord, ch, params)
+			resC <- res{pos: pos, err: err, v: "run-returned"}
+		}()
 		go func() {
 			select {
 			case v := <-ch:
@@ -265,6 +297,7 @@ func c08SignRunFrost(a []string) string {
 	}
 	params, _ := json.Marshal(subset)
 	net := newC08Net(seed, 3)
+	net.stray = true
 	defer close(net.done)
 	ctx, cancel := context.WithCancel(context.Background())
 	defer cancel()
@@ -310,7 +343,7 @@ func c08SignRunFrost(a []string) string {
 		}
 	}()
 	got := map[int]interface{}{}
-	deadline := time.After(90 * time.Second)
+	deadline := time.After(45 * time.Second)
 	for len(got) < len(sub) {
 		select {
 		case r := <-resC:
@@ -662,8 +695,10 @@ func c08RefreshSignFrost(a []string) string {
 
 type c08Failed struct{}
 
-func (c08Failed) Run(context.Context, bool, chan interface{}, []byte) error { return fmt.Errorf("not constructed") }
-func (c08Failed) Stop()                                                      {}
+func (c08Failed) Run(context.Context, bool, chan interface{}, []byte) error {
+	return fmt.Errorf("not constructed")
+}
+func (c08Failed) Stop() {}
 
 // routes the process's result channel to one we keep
 type c08WithResult struct {
@@ -735,14 +770,14 @@ func genC08Runs(g *G) {
 	g.Emit("keygenrun", "frost", "3", "1", itoa(1+g.Intn(1000)))
 	g.Emit("keygenrun", "frost", "4", "2", itoa(1+g.Intn(1000)))
 	g.Emit("refreshrun", "frost", "0,1,2", "1", itoa(1+g.Intn(1000)))
-	g.Emit("refreshrun", "frost", "2,0,1", "2", itoa(1+g.Intn(1000))) // threshold change
-	g.Emit("refreshrun", "frost", "0,1", "1", itoa(1+g.Intn(1000)))   // a member leaves
+	g.Emit("refreshrun", "frost", "2,0,1", "2", itoa(1+g.Intn(1000)))   // threshold change
+	g.Emit("refreshrun", "frost", "0,1", "1", itoa(1+g.Intn(1000)))     // a member leaves
 	g.Emit("refreshrun", "frost", "0,1,2,n", "1", itoa(1+g.Intn(1000))) // a member joins (known finding)
 	g.Emit("refreshsign", "frost", "1,2,0", "1", "0,2", itoa(1+g.Intn(1000)))
 	g.Emit("refreshsign", "frost", "0,1,2", "2", "0,1,2", itoa(1+g.Intn(1000)))
 	g.Emit("refreshsign", "frost", "0,2", "1", "0,1", itoa(1+g.Intn(1000)))
 	g.Emit("refreshsign", "frost", "0,1,2,n", "1", "0,3", itoa(1+g.Intn(1000))) // known finding: the newcomer cannot sign
-	g.Emit("refreshrun", "frost", "0,1,2", "2-1", itoa(1+g.Intn(1000)))        // known finding: a refresh cannot LOWER the threshold
+	g.Emit("refreshrun", "frost", "0,1,2", "2-1", itoa(1+g.Intn(1000)))         // known finding: a refresh cannot LOWER the threshold
 	g.Emit("refreshsign", "frost", "0,1,2", "2-1", "0,1", itoa(1+g.Intn(1000)))
 	g.Emit("refreshsign", "frost", "0,1,2", "2-1", "0,1,2", itoa(1+g.Intn(1000))) // (all three still can)
 }
